@@ -149,6 +149,14 @@ CHECKS = {
             'and the file decodes to exactly the objects written.',
             'A fault counts only when it demonstrably fired ((INJECTED) in the strace log, offset below the full size, mock call counter); other runs are inconclusive. Liveness as bounded progress.',
             'DESIGN.md section 2 C08'),
+    'C03': ('exploration', 'coverage-guided fuzzing (clang libFuzzer + ASan + UBSan) and deterministic/structure-aware mutation sweeps (gcc ASan + UBSan, NDEBUG and assertions on) through the real Reader, with exact-fit traversal of everything delivered',
+            'Every prefix of every seed file, single-byte substitutions at every offset, ~500 crafted slot mutations (string lengths 0..70000 and embedded NULs in every PBF string slot, '
+            'mismatching packed-array lengths, hostile framing, structurally odd XML, OPL escapes, o5m references and lengths; each also gzip-wrapped), seeded structure-aware mutations (PBF '
+            're-framed after mutating the uncompressed blob, payload mutated then re-compressed, compressed bytes mutated) in both build modes, plus libFuzzer targets for 10 format/wrapper '
+            'combinations. Accepted: objects or an exception derived from std::exception. Violations: any ASan report, fatal UBSan class, signal, abort/assert, other exception type, hang, or a '
+            'delivered item whose traversal (library accessors on an exact-fit copy) leaves the item.',
+            'Arithmetic UBSan classes are informational. Liveness as bounded progress (libFuzzer timeout artifacts must reproduce alone; driver stall oracle). A clean run is "no report on N executions".',
+            'DESIGN.md section 2 C03'),
 }
 
 NOT_YET = 'check not built yet (work in progress, see DESIGN.md section 6)'
